@@ -504,6 +504,14 @@ def run(prop, replay_file=None):
         if d3 is not None and d3 != d1:
             rep.violation("rerun|warm-data-source", "a run with data-source objects that already served another session differs; "
                           "configuration %s" % es._brief(spec["cfg"]), dict(spec=spec))
+        if i % 3 == 2 and not spec.get("wdiv") and spec["cfg"]["market"]:
+            two = two_source_digests(spec)
+            if two is not None:
+                rep.cov["two_source_runs"] = rep.cov.get("two_source_runs", 0) + len(two)
+                if len(set(two)) > 1 or two[0] != d1:
+                    rep.violation("rerun|two-data-sources", "runs whose handler has a primary and a fallback data source (rebuilt for every run) differ "
+                                  "from each other or from the run on the primary source alone: digests %s vs %s; configuration %s" % (
+                                      sorted(set(x[:8] for x in two)), d1[:8], es._brief(spec["cfg"])), dict(spec=spec))
         got = fresh[i * len(seeds):(i + 1) * len(seeds)]
         ds = {}
         for hs, (dg, info) in zip(seeds, got):
@@ -564,6 +572,39 @@ def warm_digest(spec):
         return None
     finally:
         shutil.rmtree(d, ignore_errors=True)
+
+
+def two_source_digests(spec, runs=6):
+    """The handler is given TWO data sources that both know every symbol but disagree on every price: a primary one
+    (the configuration's market) in front of a fallback.  Each run builds both source objects afresh; all runs must give
+    one and the same result (which source answers must not depend on where the objects happen to live in memory)."""
+    c = spec["cfg"]
+    d1 = tempfile.mkdtemp(prefix="qsv-src1-")
+    d2 = tempfile.mkdtemp(prefix="qsv-src2-")
+    try:
+        sr.write_market(d1, c["market"], random.Random(5))
+        other = dict((a, dict((d, [0 if o == 0 else o + 4000, 0 if cl == 0 else cl + 2000]) for d, (o, cl) in bars.items()))
+                     for a, bars in c["market"].items())
+        sr.write_market(d2, other, random.Random(6))
+        from qstrader.asset.equity import Equity
+        from qstrader.data.daily_bar_csv import CSVDailyBarDataSource
+        syms = sorted(c["market"])
+        digests = []
+        keep = []
+        for k in range(runs):
+            keep.append([bytearray(64 * (k + 1)) for _ in range(k)])          # perturb the allocator between runs
+            srcs = [CSVDailyBarDataSource(d1, Equity, csv_symbols=syms), CSVDailyBarDataSource(d2, Equity, csv_symbols=syms)]
+            kw = {}
+            if spec["alpha"] != "config":
+                kw["signals_factory"] = signals_factory(spec["alpha"], spec["lookback"])
+                kw["alpha_factory"] = alpha_factory(spec["alpha"], spec["lookback"], spec["topn"])
+            digests.append(digest_outcome(_run_with_sources(c, d1, srcs, **kw))[0])
+        return digests
+    except Exception:
+        return None
+    finally:
+        shutil.rmtree(d1, ignore_errors=True)
+        shutil.rmtree(d2, ignore_errors=True)
 
 
 def _run_with_sources(c, csv_dir, sources, signals_factory=None, alpha_factory=None):
